@@ -87,9 +87,15 @@ func (rt *RoundTripper) cacheResponse(req *http.Request, resp *http.Response) {
 		return
 	}
 
+	ttl := time.Until(expires)
+	if ttl <= 0 {
+		// already stale (max-age=0, Expires in the past): must not be stored
+		return
+	}
+
 	ctx := req.Context()
 	cch := cache.Ctx(ctx)
-	cch.Set(ctx, cacheKey(req), respDump, time.Until(expires)) //nolint:errcheck
+	cch.Set(ctx, cacheKey(req), respDump, ttl) //nolint:errcheck
 }
 
 func cacheKey(req *http.Request) string {
